@@ -2,6 +2,8 @@ package c17
 
 import (
 	"fmt"
+	"math"
+	"math/big"
 	"sort"
 	"strconv"
 	"strings"
@@ -181,9 +183,9 @@ func (s *aggState) value(fn string) (float64, bool) {
 	if len(xs) == 0 {
 		return 0, true
 	}
-	sort.Float64s(xs)
 	switch fn {
 	case "sum", "avg":
+		// arrival order, as a running aggregate sees the rows
 		t := 0.0
 		for _, x := range xs {
 			t += x
@@ -192,11 +194,59 @@ func (s *aggState) value(fn string) (float64, bool) {
 			t /= float64(len(xs))
 		}
 		return t, false
+	}
+	sort.Float64s(xs)
+	switch fn {
 	case "min":
 		return xs[0], false
 	default:
 		return xs[len(xs)-1], false
 	}
+}
+
+// orderSensitive reports whether the verdict of "sum/avg(v) op lit" over these rows depends on the order of the
+// floating-point additions (arrival, ascending, descending or exact): the property does not fix one, so such a
+// comparison has no defined truth value and the case gives no verdict.
+func (s *aggState) orderSensitive(fn, op string, lit float64) bool {
+	if fn != "sum" && fn != "avg" {
+		return false
+	}
+	var xs []float64
+	for _, r := range s.rows {
+		if f, ok := r["v"].Num(); ok {
+			xs = append(xs, f)
+		}
+	}
+	if len(xs) < 2 {
+		return false
+	}
+	fin := func(t float64) bool {
+		if fn == "avg" {
+			t /= float64(len(xs))
+		}
+		return cmp(t, op, lit)
+	}
+	arrival := 0.0
+	for _, x := range xs {
+		arrival += x
+	}
+	ys := append([]float64(nil), xs...)
+	sort.Float64s(ys)
+	asc, desc := 0.0, 0.0
+	for i := range ys {
+		asc += ys[i]
+		desc += ys[len(ys)-1-i]
+	}
+	exact := new(big.Float).SetPrec(2200)
+	for _, x := range xs {
+		if math.IsInf(x, 0) || math.IsNaN(x) {
+			return true
+		}
+		exact.Add(exact, new(big.Float).SetPrec(2200).SetFloat64(x))
+	}
+	ex, _ := exact.Float64()
+	want := fin(arrival)
+	return fin(asc) != want || fin(desc) != want || fin(ex) != want
 }
 
 func cmp(a float64, op string, b float64) bool {
@@ -287,6 +337,12 @@ func runCase(c Case) (res pbt.Result) {
 			states[k] = s
 		}
 		s.rows = append(s.rows, r)
+		for _, a := range c.Atoms {
+			if s.orderSensitive(a.Fn, a.Op, a.Lit) {
+				res.Class("no-verdict:float-order")
+				return
+			}
+		}
 		fire, no := evalPred(c, s)
 		if no {
 			nullOr = true
